@@ -42,6 +42,8 @@ CASES = [
      dict(i='int', j='posint', a='real', b='real')),
     ('zeros-default-float', 'm = numpy.zeros(2)\nm[0] = i\nm[1] = a\nr = [m[0] / 2, m[1]]', dict(i='int', a='real')),
     ('generator-flatten', 'def fl(s, lev=0):\n    for it in s:\n        if isinstance(it, (list, tuple)) and lev < 2:\n            for sub in fl(it, lev + 1):\n                yield sub\n        else:\n            yield it\nr = list(fl([a, [b, (a, [b])], x])) [:3] + list(fl(x))', dict(x='list', a='real', b='real')),
+    ('allclose', 'r = [bool(numpy.allclose(a, b, rtol=0.25, atol=0.5)), bool(numpy.allclose(x, y, rtol=0.5, atol=1.0)), bool(numpy.allclose(x, a, 0.5, 2.0))]',
+     dict(x='list', y='list_same', a='real', b='real')),
     ('abs-tolerance', 'r = tol + abs(a) * rel', dict(a='real', tol='real', rel='real')),
 ]
 
